@@ -100,8 +100,10 @@ func H16a() {
 
 func vRecLen(kind int) int {
 	switch kind {
-	case vKindRecord, vKindCompressed:
+	case vKindRecord:
 		return 6
+	case vKindCompressed:
+		return 2
 	case vKindUnknownMsg, vKindCompUnknown:
 		return 3
 	case vKindUnknownFld:
